@@ -194,6 +194,8 @@ func runFileSink(rc *RunCtx, prop string, crash bool, faults bool) {
 		nWriters = 3
 	}
 	var stamp int64
+	preDecoysGone := false
+	_ = preDecoysGone
 	var events []*fsEvent
 	evID := 0
 	renamed := 0
@@ -270,6 +272,9 @@ func runFileSink(rc *RunCtx, prop string, crash bool, faults bool) {
 			case c < 15:
 				prog = append(prog, step{kind: "reopen"})
 				pd = append(pd, "reopen")
+			case c < 17 && seqMode && tp.Choose(3, "rmdir") == 0:
+				prog = append(prog, step{kind: "rmdir"})
+				pd = append(pd, "remove-directory+reopen")
 			case c < 17:
 				prog = append(prog, step{kind: "extrename"})
 				pd = append(pd, "external-rename+reopen")
@@ -299,6 +304,17 @@ func runFileSink(rc *RunCtx, prop string, crash bool, faults bool) {
 					simrt.Yield("writer:between-rename-and-reopen")
 					err := sink.Reopen()
 					if seqMode {
+						model.afterReopen(err)
+					}
+				case "rmdir":
+					// the operator removes the whole log directory and signals a reopen:
+					// the directory has to be created on demand again
+					os.RemoveAll(logDir)
+					preDecoysGone = true
+					simrt.Probe("fs.directory-removed")
+					err := sink.Reopen()
+					if seqMode {
+						model.preDecoys = false
 						model.afterReopen(err)
 					}
 				case "pause":
